@@ -118,7 +118,10 @@ def write_phase(scn, crash_at=None, log=None, items=None) -> WriteResult:
             if scn["level"] != "vbs":
                 raise ValueError("func api is vbs level only")
             try:
-                res.image = m["mciipm"].vbs_list_to_bytes(items, blocked=blocked)
+                if not blocked and scn.get("omit_kwargs"):
+                    res.image = m["mciipm"].vbs_list_to_bytes(items)          # default call, no options given
+                else:
+                    res.image = m["mciipm"].vbs_list_to_bytes(items, blocked=blocked)
             except Exception as ex:
                 res.error = (type(ex).__name__, str(ex)[:200])
                 return res
@@ -127,7 +130,10 @@ def write_phase(scn, crash_at=None, log=None, items=None) -> WriteResult:
         st = Storage(scn.get("storage", "sim"), crash_at=crash_at, log=log)
         try:
             if scn["level"] == "vbs":
-                w = m["mciipm"].VbsWriter(st.f, blocked=blocked)
+                if not blocked and scn.get("omit_kwargs"):
+                    w = m["mciipm"].VbsWriter(st.f)
+                else:
+                    w = m["mciipm"].VbsWriter(st.f, blocked=blocked)
             else:
                 cfg = msgcodec.cfg_from_json(scn.get("config", "packaged"))
                 w = m["mciipm"].IpmWriter(st.f, encoding=scn.get("encoding"), iso_config=cfg, blocked=blocked)
@@ -229,7 +235,10 @@ def read_phase(scn, image, log=None, storage="sim", limit=None) -> ReadResult:
     with sut.knob(knobs.get("MAX_VBS_RECORD_LENGTH")):
         if scn.get("reader") == "func" and scn["level"] == "vbs":
             try:
-                res.items = m["mciipm"].vbs_bytes_to_list(image, blocked=blocked)
+                if not blocked and scn.get("omit_kwargs"):
+                    res.items = m["mciipm"].vbs_bytes_to_list(image)           # default call, no options given
+                else:
+                    res.items = m["mciipm"].vbs_bytes_to_list(image, blocked=blocked)
                 res.end = "stop"
             except m["MciIpmDataError"] as ex:
                 res.end = "MciIpmDataError"
@@ -247,7 +256,10 @@ def read_phase(scn, image, log=None, storage="sim", limit=None) -> ReadResult:
         else:
             f = SimFile(image, log=log, name="disk") if storage == "sim" else io.BytesIO(image)
         if scn["level"] == "vbs":
-            r = m["mciipm"].VbsReader(f, blocked=blocked)
+            if not blocked and scn.get("omit_kwargs"):
+                r = m["mciipm"].VbsReader(f)
+            else:
+                r = m["mciipm"].VbsReader(f, blocked=blocked)
         else:
             cfg = msgcodec.cfg_from_json(scn.get("config", "packaged"))
             r = m["mciipm"].IpmReader(f, encoding=scn.get("encoding"), iso_config=cfg, blocked=blocked)
